@@ -20,7 +20,7 @@ CHECKS = {
    technique="deterministic simulation: seeded segment delivery schedules with loss/duplication/reordering/corruption between real Segmenter and Desegmenter, directly and over the two nodes' real p2p stacks",
    note="Trusted base: harness mirror of the sync loop and of receive_*_segment; the serving chain keeps its archive header at or above its compaction horizon (always true with mainnet parameters); one case in eight has a multi-chunk bitmap (1081+ real outputs)."),
  "C14": dict(engine="poolsim", cat="exploration", ref="5/C14",
-   text="A real chain plus a real TransactionPool, wired through the real servers::PoolToChainAdapter and ChainToPoolAndNetAdapter as Server::new wires them, are driven with seeded interleavings of submissions of every kind (valid, dependent on one or two pooled parents, conflicting, duplicate, aggregated incl. an under-fee remainder, under-fee, fee-shifted honest / underpaying, output-less, bad signature, immature / just-mature / mixed-maturity coinbase spends, future/next lock height, fluffing of a stemmed transaction, stem/fluff with simulated relay failures), blocks mined from the mineable set, blocks with arbitrary pool subsets and conflicting spends, headers arriving ahead of their blocks, reorgs and capacity shrinks (every schedule contains a shrink below the current size followed by an under-fee and a valid submission); after every operation the pool's joint validity on the current head, per-entry fee/weight/validity, stempool+txpool validity and the mineable set are checked, and blocks built from the mineable set must be accepted by the chain. Every other run is a network run (E11 netsim): the node carries its complete p2p stack and the real PoolToNetAdapter, submissions and blocks arrive as peer messages from lock-stepped simulated peers (transactions also announced by kernel hash, blocks also header-first and compact with the node's requests served), an outbound simulated peer is the node's Dandelion relay in three of four such runs, and before every block mined from the pool the node's own mine_block::get_block must return a block within the weight limit that a replica of the node's data directory accepts.",
+   text="A real chain plus a real TransactionPool, wired through the real servers::PoolToChainAdapter and ChainToPoolAndNetAdapter as Server::new wires them, are driven with seeded interleavings of submissions of every kind (valid, dependent on one or two pooled parents, conflicting, duplicate, aggregated incl. an under-fee remainder, under-fee, fee-shifted honest / underpaying, output-less, bad signature, immature / just-mature / mixed-maturity coinbase spends, future/next lock height, fluffing of a stemmed transaction, stem/fluff with simulated relay failures), blocks mined from the mineable set, blocks with arbitrary pool subsets and conflicting spends, headers arriving ahead of their blocks, reorgs and capacity shrinks (every schedule contains a shrink below the current size followed by an under-fee and a valid submission); after every operation the pool's joint validity on the current head, per-entry fee/weight/validity, stempool+txpool validity and the mineable set are checked, and blocks built from the mineable set must be accepted by the chain. Every other run is a network run (E11 netsim): the node carries its complete p2p stack and the real PoolToNetAdapter, submissions and blocks arrive as peer messages from lock-stepped simulated peers (transactions also announced by kernel hash, blocks also header-first and compact with the node's requests served), an outbound simulated peer is the node's Dandelion relay in three of four such runs, and before every block mined from the pool the node's own mine_block::get_block must return a block within the weight limit that a replica of the node's data directory accepts. Every fourth case is a mesh of 2-4 real nodes gossiping over simulated wires (pushes of fluff, stem and conflicting transactions, mining from each node's own pool, partitions): every node's txpool and txpool + stempool must apply on that node's own head after every operation.",
    technique="deterministic simulation: seeded interleavings of pool submissions, block connections, reorgs and evictions with invariants checked after every step; lock-stepped simulated peers against the real p2p stack",
    note="Trusted base: harness wallet/miner (the history's blocks; the node's own block builder is run and judged on a replica); a block connection (process_block including the adapter's reconcile calls) is treated as atomic; reorg-cache ageing uses an explicit cutoff; in network runs acceptance is read from the pool's contents."),
  "C19": dict(engine="wiresim", cat="fault_enumeration", ref="5/C19",
@@ -56,7 +56,7 @@ CHECKS = {
    text="Seeded simulation: after every delivery (forks, reorgs, restarts) the committed bitmap root must equal an accumulator built from scratch over the reported unspent set and an independent re-implementation; a re-mined block committing to a bitmap with one flipped bit must be refused.",
    technique="deterministic simulation: seeded apply/rewind histories against a from-scratch bitmap commitment model"),
  "C03": dict(engine="chainsim", cat="exploration", ref="5/C03",
-   text="Seeded simulation: real Chain replicas are fed generated fork trees (real PoW worlds and SKIP_POW worlds with free per-block difficulties) in seeded delivery orders with duplicates, child-before-parent, header batches (also overlapping what the node already has) and clean restarts, including worlds whose forks leave a 56-66 block trunk more than 50 blocks below its tip; after every delivery head/header_head are compared with a most-work model driven by the node's own accept events, and at quiescence every replica must equal a reference node fed the winning chain alone and pass full validation. Every fourth case (E11 netsim) a real-PoW world reaches one real node through its complete p2p stack (real Peers / Peer / Handshake / conn reader and writer threads / Protocol / TrackingAdapter / NetToChainAdapter over loopback sockets) from 2-3 simulated peers that keep one message in flight: header-first announcements, unsolicited compact and full blocks, children before parents, duplicates, reconnects, unanswered requests; the node's own requests (compact block after a header, full block after failed hydration, parent of an orphan) are served by seeded policy; head must always be an accepted block of greatest work, orphans must be adopted once their parent is there, honest peers are never banned, and the final state must equal the reference node's.",
+   text="Seeded simulation: real Chain replicas are fed generated fork trees (real PoW worlds and SKIP_POW worlds with free per-block difficulties) in seeded delivery orders with duplicates, child-before-parent, header batches (also overlapping what the node already has) and clean restarts, including worlds whose forks leave a 56-66 block trunk more than 50 blocks below its tip; after every delivery head/header_head are compared with a most-work model driven by the node's own accept events, and at quiescence every replica must equal a reference node fed the winning chain alone and pass full validation. Every fourth case (E11 netsim) a real-PoW world reaches one real node through its complete p2p stack (real Peers / Peer / Handshake / conn reader and writer threads / Protocol / TrackingAdapter / NetToChainAdapter over loopback sockets) from 2-3 simulated peers that keep one message in flight: header-first announcements, unsolicited compact and full blocks, children before parents, duplicates, reconnects, unanswered requests; the node's own requests (compact block after a header, full block after failed hydration, parent of an orphan) are served by seeded policy; head must always be an accepted block of greatest work, orphans must be adopted once their parent is there, honest peers are never banned, and the final state must equal the reference node's; one such run in four starts with header sync and body sync through the adapter. Every eighth case is a mesh of 2-4 real nodes with the simulator as every wire between them (seeded link order, partitions that hold frames, heals): blocks mined on a node from its own pool spread by the nodes' own relay, and at quiescence all nodes must sit on the most-work block mined with identical state.",
    technique="deterministic simulation: seeded schedule search over block/header delivery orders against a most-work reference model; lock-stepped simulated peers against the real p2p stack",
    note="Trusted base: the harness wallet/miner/reference models in /verif/sim; AutomatedTesting chain parameters; chainsim cases stub p2p and the servers adapters (call order mirrored), netsim cases run them for real and stub only the remote peers and the sync/seed/monitor loops. Sampling, not enumeration: a clean batch is evidence, not proof."),
  "C02": dict(engine="chainsim", cat="exploration", ref="5/C02",
